@@ -95,7 +95,7 @@ func hProg(nThreads, opsPerThread int) func() {
 		prog := make([][]int, nThreads)
 		for t := range prog {
 			for k := 0; k < opsPerThread; k++ {
-				prog[t] = append(prog[t], vrt.Choose(6, 0))
+				prog[t] = append(prog[t], vrt.Choose(7, 0))
 			}
 		}
 		vrt.Log("program", fmt.Sprint(prog))
@@ -120,6 +120,11 @@ func hProg(nThreads, opsPerThread int) func() {
 						h.close()
 					case 5:
 						h.send(10*(t+1) + k)
+					case 6: // the callers' context is cancelled by one of the threads, at any point of the others' calls
+						id := int(vrt.Stamp())
+						vrt.Log("c:Cancel", id, -1, 2)
+						cancel()
+						vrt.Log("r:Cancel", id)
 					}
 				}
 			}()
@@ -182,8 +187,8 @@ func init() {
 		{"B-prog-2x3", 2, 3, 9, nil, defaultPolicy, -1, 0, all},
 	} {
 		vrt.Register(&vrt.Scenario{Name: p.name, Props: p.props, Quick: p.quick, Thorough: p.thor,
-			Desc: fmt.Sprintf("every program of %d threads x %d operations over {Put, Get(c1|c2), Commit, Rollback, Diff, Put(batch), Slice, Close(c2), NewConsumer} (first %d) on a Buffer with two consumers and one value, linearised against the model", p.threads, p.ops, p.nops),
-			Opts: vrt.Options{Delay: true}, Run: bProg(p.threads, p.ops, p.cleaner, p.nops), Check: bufferCheckSig(p.policy, "lost-wakeup")})
+			Desc:  fmt.Sprintf("every program of %d threads x %d operations over {Put, Get(c1|c2), Commit, Rollback, Diff, Put(batch), Slice, Close(c2), NewConsumer} (first %d) on a Buffer with two consumers and one value, linearised against the model", p.threads, p.ops, p.nops),
+			Heavy: true, Opts: vrt.Options{Delay: true}, Run: bProg(p.threads, p.ops, p.cleaner, p.nops), Check: bufferCheckSig(p.policy, "lost-wakeup")})
 	}
 	for _, p := range []struct {
 		name         string
@@ -191,10 +196,10 @@ func init() {
 		q, t         int
 	}{{"H-prog-2x2", 2, 2, 1, 2}, {"H-prog-3x1", 3, 1, 1, 2}, {"H-prog-2x3", 2, 3, 0, 1}} {
 		vrt.Register(&vrt.Scenario{Name: p.name, Props: []string{"C13", "C11:race", "C12:goroutine-leak,close-"}, Quick: p.q, Thorough: p.t,
-			Desc: fmt.Sprintf("every program of %d threads x %d operations over {Get, Commit, Rollback, Buffer, Close, send to the source} on a Channel whose source holds two values", p.threads, p.ops),
-			Opts: vrt.Options{Delay: true, MaxTimerFires: 10}, Run: hProg(p.threads, p.ops), Check: channelCheck})
+			Desc:  fmt.Sprintf("every program of %d threads x %d operations over {Get, Commit, Rollback, Buffer, Close, send to the source, cancel of the callers' context} on a Channel whose source holds two values", p.threads, p.ops),
+			Heavy: true, Opts: vrt.Options{Delay: true, MaxTimerFires: 10}, Run: hProg(p.threads, p.ops), Check: channelCheck})
 	}
 	vrt.Register(&vrt.Scenario{Name: "X-prog", Props: []string{"C09:overlap,key-", "C10", "C11:race", "C12:goroutine-leak"}, Quick: 1, Thorough: 2,
-		Desc: "three callers on one key, each with an enumerated style out of {Call, CallAsync, Start, CallAfter(5ms), StartAfter(5ms), non-resolving work, rate-limited}",
-		Opts: vrt.Options{Delay: true}, Run: xProg, Check: exclusiveCheck})
+		Desc:  "three callers on one key, each with an enumerated style out of {Call, CallAsync, Start, CallAfter(5ms), StartAfter(5ms), non-resolving work, rate-limited}",
+		Heavy: true, Opts: vrt.Options{Delay: true}, Run: xProg, Check: exclusiveCheck})
 }
